@@ -1,6 +1,6 @@
 #!/bin/sh
 # mutant.sh <patch> <PROP> [--reverse] [--tier T]: run a check against a scratch copy of /repo with a patch applied
-P="$1"; PROP="$2"; shift 2
+P="$(cd "$(dirname "$1")" && pwd)/$(basename "$1")"; PROP="$2"; shift 2
 REV=""; TIER=quick
 while [ $# -gt 0 ]; do case "$1" in --reverse) REV="-R";; --tier) TIER="$2"; shift;; esac; shift; done
 D="$(cd "$(dirname "$0")/.." && pwd)"
